@@ -94,11 +94,10 @@ func (v *VStruct) Valid(src interface{}) error {
 	}
 
 	reflectValue := RemoveValuePtr(reflect.ValueOf(src))
+	if !reflectValue.IsValid() { // 指针为 nil, 如: (*T)(nil)
+		return errors.New("src \"" + reflect.TypeOf(src).String() + "\" is nil")
+	}
 	switch reflectValue.Kind() {
-	case reflect.Ptr:
-		if reflectValue.IsNil() {
-			return errors.New("src \"" + reflectValue.Type().String() + "\" is nil")
-		}
 	case reflect.Slice, reflect.Array:
 		var structName string
 		for i := 0; i < reflectValue.Len(); i++ {
@@ -134,6 +133,9 @@ func (v *VStruct) getValidFn(validName string) (CommonValidFn, error) {
 // isValidGatherObj 是否验证集合对象, 包含: slice/array/map
 func (v *VStruct) validate(structName string, value reflect.Value, isValidGatherObj ...bool) *VStruct {
 	tv := RemoveValuePtr(value)
+	if !tv.IsValid() { // nil 指针(如: []*T{nil} 中的元素)没有可验证的内容
+		return v
+	}
 	ty := tv.Type()
 	// fmt.Printf("ty: %v, structName: %q\n", ty, structName)
 	// 如果不是结构体就退出
